@@ -1,17 +1,17 @@
-"""C06 - Luau-lowering rules preserve program behaviour."""
+"""C17 - Removal and injection rules change exactly what they name."""
 import re
 
 from . import common as C
 from . import rulecheck
 
 META = {
-    "title": "Luau-lowering rules preserve program behaviour",
+    "title": "Removal and injection rules change exactly what they name",
     "level": "proof",
-    "design_ref": "DESIGN.md section 6 / C06",
+    "design_ref": "DESIGN.md section 6 / C17",
     "technique": "Coq lemmas on local rewrites against the reference Lua semantics + whole-program "
                  "translation validation in the Coq reference interpreter",
-    "level_text": "Machine-checked local-equivalence lemmas (Coq) for the rewrites the lowering rules perform, stated against "
-                  "the fuel-indexed reference semantics; on every run, generated Luau programs are lowered by the real rules "
+    "level_text": "Machine-checked local-equivalence lemmas (Coq) for the rewrites these rules perform, stated against "
+                  "the fuel-indexed reference semantics; on every run, generated programs are transformed by the real rules "
                   "(on the tree and end to end through each generator) and original and output are executed in the Coq "
                   "reference interpreter under both dialects and several oracle streams, any difference being the replay.",
     "level_note": "Trusted: Coq kernel + vm_compute; Lua/Sem.v (specification); harness dl-rules + astdump. The lifting of "
@@ -20,9 +20,8 @@ META = {
     "trusted_base": ["Coq 8.16.1 kernel, vm_compute", "Lua/Sem.v reference semantics + Lib/F64.v (specification)",
                      "harness/crates/rules (program generator) + astdump (AST printer)", "darklua's parser (to read programs)"],
     "allowed_axioms": [],
-    "rule": "seeded typed generator of observable Luau programs (compound assignment on locals/fields/indexes with effectful "
-            "keys, continue in for/while/repeat, if-expressions, interpolated strings, //, typed locals, Luau numbers, "
-            "metatables with observable metamethods) x lowering rule alone / all / random subset in random order; a case is "
+    "rule": "seeded typed generator of observable programs (closures, upvalues, shadowing, varargs, multiple returns, "
+            "metatables with observable metamethods, loops with break, method calls, foldable and dead code) x remove_assertions, remove_debug_profiling, inject_global_value (values of every JSON kind); the reference program is the input run in the correspondingly modified environment (assert := function returning its arguments, profiling functions := no-ops, the global preset); a case is "
             "non-trivial when the reference run gives a verdict (error-free, dialect-independent) and the rules changed the tree",
     "assumptions": ["Lua/Sem.v is a faithful reference semantics on the modelled fragment"],
 }
@@ -31,7 +30,7 @@ def run(ctx):
     C.build_harness("dl-rules")
     proofs_ok = C.proof_gate(ctx, ["Lua/RunCheck.vo", "Lua/KnownClasses.vo"])
     n = 400 if ctx.tier == "quick" else 6000
-    rulecheck.run_profile(ctx, "c06", n, classify=None)
+    rulecheck.run_profile(ctx, "c17", n, classify=None)
     if not proofs_ok and not ctx.violations:
         failed = [n for n, ok, _ in ctx.obligations if not ok]
         ctx.violation("proof obligation no longer checks: " + "; ".join(failed), {"obligations": failed},
